@@ -10,12 +10,12 @@ Section Handlers.
 Variable lit : string -> outcome litres.
 Variable re_search : string -> string -> outcome reres.
 Variable nstr : node -> string.
-Variable vstr : list rnode -> string.
+Variable vstr : list rval -> string.
 Hypothesis lit_total : forall s, exists r, lit s = Ok r /\ (forall c, r <> LCrash c).
 Hypothesis re_total : forall p s, exists r, re_search p s = Ok r.
 
-Lemma sm_ok m term v : ok_or_ype (sm lit re_search nstr vstr m term v).
-Proof. unfold sm. apply search_matches_ok; auto. Qed.
+Lemma sm_ok m term v : ok_or_ype (esm lit re_search nstr vstr m term v).
+Proof. unfold esm. apply search_matches_ok; auto. Qed.
 
 Lemma bounds_of (n idx : Z) : ((- n <=? idx)%Z && (idx <? n)%Z)%bool = true -> (- n <= idx < n)%Z.
 Proof. intros H. apply andb_prop in H. destruct H as [H1 H2]. apply Z.leb_le in H1. apply Z.ltb_lt in H2. lia. Qed.
@@ -23,11 +23,11 @@ Proof. intros H. apply andb_prop in H. destruct H as [H1 H2]. apply Z.leb_le in 
 Ltac step Q :=
   match goal with
   | |- sres _ gnil => apply sres_gnil
-  | |- sres _ (gone (coords _ _ _ _ _)) => apply sres_coords; reflexivity
+  | |- sres _ (gone (ncoords _ _ _ _ _)) => apply sres_coords; reflexivity
   | |- sres _ (gerr (YPE _)) => apply sres_gerr_ype
   | |- sres _ (gfor _ _) => apply sres_gfor; intros
   | |- sres _ (gapp _ _) => apply sres_gapp; [|intros _]
-  | |- sres _ (glift (sm _ _ _ _ _ _ _) _) => apply sres_glift; [apply sm_ok|intros]
+  | |- sres _ (glift (esm _ _ _ _ _ _ _) _) => apply sres_glift; [apply sm_ok|intros]
   | |- sres _ (if ?b then _ else _) => destruct b eqn:?
   | |- sres _ (match ?x with _ => _ end) => destruct x eqn:?
   | |- sres _ (let '(_, _) := ?x in _) => destruct x eqn:?
@@ -41,7 +41,7 @@ Qed.
 Lemma in_enumerate {A} (l : list A) i x : In (i, x) (enumerate l) -> In x l.
 Proof. apply in_enumerate_from. Qed.
 
-Lemma sres_py_nth Q (els : list rnode) idx k :
+Lemma sres_py_nth Q (els : list rval) idx k :
   ((- Z.of_nat (List.length els) <=? idx)%Z && (idx <? Z.of_nat (List.length els))%Z)%bool = true ->
   (forall e, In e els -> sres Q (k e)) ->
   sres Q (glift (py_nth els idx) k).
@@ -126,7 +126,7 @@ Qed.
 Lemma rlist_elem_size l e : In e l -> vsize e < vsize (RList l).
 Proof.
   intros H. cbn.
-  assert (forall l, In e l -> vsize e <= (fix go (l0 : list rnode) : nat := match l0 with [] => 0 | x :: r => vsize x + go r end) l).
+  assert (forall l, In e l -> vsize e <= (fix go (l0 : list rval) : nat := match l0 with [] => 0 | x :: r => vsize x + go r end) l).
   { clear. induction l as [|y r IH]; intros H; cbn in *; [contradiction|].
     destruct H as [->|H]; [lia | apply IH in H; lia]. }
   apply H0 in H. lia.
@@ -160,10 +160,10 @@ Qed.
 (* ---- by_search ---- *)
 Definition is_coords_b := is_coords.
 
-Lemma desc_scan_res m term inv items st matches k :
+Lemma hash_desc_scan_res m term inv items st matches k :
   okstop st -> Forall (fun x => is_coords x = true) items ->
   (forall b, sres coords_or_list (k b)) ->
-  sres coords_or_list (desc_scan lit re_search nstr vstr m term inv items st matches k).
+  sres coords_or_list (hash_desc_scan lit re_search nstr vstr m term inv items st matches k).
 Proof.
   intros Hst Hit Hk. revert matches. induction items as [|d r IH]; intros matches; cbn.
   - destruct st; cbn in *; auto; try contradiction; split; auto; constructor.
@@ -179,7 +179,7 @@ Lemma by_search_res rq_sub inv m attr term v c :
 Proof.
   intros Hrq. unfold by_search.
   repeat (step coords_or_list).
-  all: try (apply desc_scan_res; [apply Hrq | apply Hrq | intros; repeat (step coords_or_list)]).
+  all: try (apply hash_desc_scan_res; [apply Hrq | apply Hrq | intros; repeat (step coords_or_list)]).
   all: apply sres_gfirst_in; [apply Hrq | | repeat (step coords_or_list)].
   all: intros d Hd;
        match type of Hd with In _ (fst (_ ?e ?cc)) => destruct (Hrq e cc) as [_ Hf] end;
